@@ -57,8 +57,9 @@ def check_iter(ctx: Context, rep, rule: str, funcs: list[FunctionInfo]) -> None:
         rule,
         "single-iterator discipline: a variable consumed by more than one "
         "partial consumer (zip(range(n), x), islice(x, n), next/anext, "
-        "enumerate with break) - or by one inside a loop - is bound to "
-        "iter()/aiter() before its first consumption and not rebound "
+        "enumerate with break) - or by one inside a loop - is bound to a "
+        "one-shot iterator (iter()/aiter(), an itertools / map / zip object, "
+        "a generator) before its first consumption and not rebound "
         "afterwards (a re-iterable input such as a list would otherwise be "
         "restarted and its head delivered twice)")
     n = 0
@@ -79,10 +80,9 @@ def check_iter(ctx: Context, rep, rule: str, funcs: list[FunctionInfo]) -> None:
                 x.ast, (ast.Assign, ast.AnnAssign)) and dotted(
                     x.ast.targets[0] if isinstance(x.ast, ast.Assign) else
                     x.ast.target) == v]
-            iter_binds = [b for b in binds if isinstance(
-                b.ast.value, ast.Call) and isinstance(
-                    b.ast.value.func, ast.Name) and b.ast.value.func.id in (
-                        "iter", "aiter")]
+            from sa.rules.common import is_iterator_expr
+            iter_binds = [b for b in binds if is_iterator_expr(
+                ctx, fn, b.ast.value)]
             use_nodes = [x for x in cfg.nodes if x.kind == "call" and any(
                 x.ast is c for c, _k in uses)]
             missed = cfg.always_before(iter_binds, use_nodes)
@@ -189,14 +189,28 @@ def gen_facts(ctx: Context, fn: FunctionInfo):
     return cfg, src, pulls
 
 
+def find_buffer(fn: FunctionInfo):
+    """(buffer variable, prefill comprehension or None): the buffer is a
+    local bound to [] (filled by a prefill loop) or to a list comprehension
+    over zip(range(n), source)."""
+    buf = None
+    comp = None
+    for n in fn.body_nodes():
+        if isinstance(n, (ast.Assign, ast.AnnAssign)) and n.value is not None:
+            t = n.targets[0] if isinstance(n, ast.Assign) else n.target
+            if isinstance(n.value, ast.List) and not n.value.elts:
+                buf, comp = dotted(t), None
+            elif isinstance(n.value, ast.ListComp) and len(
+                    n.value.generators) == 1 and "zip(" in ast.unparse(
+                        n.value.generators[0].iter) and "range(" in \
+                    ast.unparse(n.value.generators[0].iter):
+                buf, comp = dotted(t), n.value
+    return buf, comp
+
+
 def check_value_buffer(ctx: Context, rep, rule: str, fn: FunctionInfo) -> None:
     cfg, src, pulls = gen_facts(ctx, fn)
-    buf = None
-    for n in fn.body_nodes():
-        if isinstance(n, (ast.Assign, ast.AnnAssign)) and isinstance(
-                n.value, ast.List) and not n.value.elts:
-            t = n.targets[0] if isinstance(n, ast.Assign) else n.target
-            buf = dotted(t)
+    buf, comp_prefill = find_buffer(fn)
     if buf is None or len(pulls) != 1:
         raise AnalysisError(f"{fn.qualname}: value buffer / pull site not "
                             f"recognised (buffer={buf}, pulls={len(pulls)})")
@@ -214,18 +228,28 @@ def check_value_buffer(ctx: Context, rep, rule: str, fn: FunctionInfo) -> None:
                                         if ok_stop else ""),
            message="end of input is recognised only by the iterator protocol "
            "(no default value that a legal element could equal)")
-    # prefill appends every pulled element
+    # prefill keeps every pulled element
     pre = [n for n in fn.body_nodes() if isinstance(n, (ast.For, ast.AsyncFor))
            and "zip" in ast.unparse(n.iter) and src in names_in(n.iter)]
     ok_pre = False
-    if len(pre) == 1 and isinstance(pre[0].target, ast.Tuple):
+    if comp_prefill is not None:
+        g = comp_prefill.generators[0]
+        ok_pre = isinstance(g.target, ast.Tuple) and not g.ifs and dotted(
+            comp_prefill.elt) == dotted(g.target.elts[1]) and src in \
+            names_in(g.iter)
+        pre_desc = short(comp_prefill, 90)
+        pre_node = comp_prefill
+    elif len(pre) == 1 and isinstance(pre[0].target, ast.Tuple):
         item = pre[0].target.elts[1]
         ok_pre = len(pre[0].body) == 1 and ast.unparse(pre[0].body[0]) == \
             f"{buf}.append({dotted(item)})"
-    rep.ob(rule, ok_pre, loc=fn.loc(pre[0]) if pre else fn.loc(),
-           where=fn.qualname,
-           construct=short(pre[0], 90) if pre else "<no prefill>",
-           message="every element pulled by the prefill is appended to the "
+        pre_desc = short(pre[0], 90)
+        pre_node = pre[0]
+    else:
+        pre_desc, pre_node = "<no prefill>", None
+    rep.ob(rule, ok_pre, loc=fn.loc(pre_node) if pre_node is not None else
+           fn.loc(), where=fn.qualname, construct=pre_desc,
+           message="every element pulled by the prefill is kept in the "
            "buffer")
     # main loop: yield buffer[i] then buffer[i] = new
     ys = [n for n in cfg.find(lambda n: n.kind == "yield") if isinstance(
@@ -277,6 +301,8 @@ def check_value_buffer(ctx: Context, rep, rule: str, fn: FunctionInfo) -> None:
             dotted(c.func.value) == buf and c.func.attr in (
                 "append", "pop", "remove", "clear", "insert", "extend")]
     outside = [c for c in muts if not (pre and any(c is x for x in ast.walk(pre[0])))]
+    if comp_prefill is not None:
+        outside = muts
     dels = [n for n in fn.body_nodes() if isinstance(n, ast.Delete) and
             buf in ast.unparse(n)]
     rep.ob(rule, not outside and not dels, loc=fn.loc(), where=fn.qualname,
@@ -307,12 +333,7 @@ def check_value_buffer(ctx: Context, rep, rule: str, fn: FunctionInfo) -> None:
 
 def check_iter_buffer(ctx: Context, rep, rule: str, fn: FunctionInfo) -> None:
     cfg, src, pulls = gen_facts(ctx, fn)
-    buf = None
-    for n in fn.body_nodes():
-        if isinstance(n, (ast.Assign, ast.AnnAssign)) and isinstance(
-                n.value, ast.List) and not n.value.elts:
-            t = n.targets[0] if isinstance(n, ast.Assign) else n.target
-            buf = dotted(t)
+    buf, comp_prefill = find_buffer(fn)
     if buf is None:
         raise AnalysisError(f"{fn.qualname}: buffer not recognised")
     loops = [n for n in fn.body_nodes() if isinstance(n, ast.While)]
@@ -432,13 +453,20 @@ def check_iter_buffer(ctx: Context, rep, rule: str, fn: FunctionInfo) -> None:
     # prefill wraps each pulled inner iterable with iter()/aiter()
     apps = [c for c in fn.calls() if isinstance(c.func, ast.Attribute) and
             dotted(c.func.value) == buf and c.func.attr == "append"]
-    ok_app = len(apps) == 1 and isinstance(apps[0].args[0], ast.Call) and \
-        isinstance(apps[0].args[0].func, ast.Name) and \
-        apps[0].args[0].func.id in ("iter", "aiter") and not any(
-            apps[0] is x for x in ast.walk(lp))
+    if comp_prefill is not None:
+        e = comp_prefill.elt
+        ok_app = not apps and isinstance(e, ast.Call) and isinstance(
+            e.func, ast.Name) and e.func.id in ("iter", "aiter") and \
+            not comp_prefill.generators[0].ifs
+        desc = short(comp_prefill, 80)
+    else:
+        ok_app = len(apps) == 1 and isinstance(apps[0].args[0], ast.Call) and \
+            isinstance(apps[0].args[0].func, ast.Name) and \
+            apps[0].args[0].func.id in ("iter", "aiter") and not any(
+                apps[0] is x for x in ast.walk(lp))
+        desc = short(apps[0]) if apps else "<none>"
     rep.ob(rule, ok_app, loc=fn.loc(apps[0]) if apps else fn.loc(),
-           where=fn.qualname,
-           construct=short(apps[0]) if apps else "<none>",
+           where=fn.qualname, construct=desc,
            message="the buffer is filled once, before the main loop, with "
            "one iterator per inner iterable")
 
@@ -630,32 +658,48 @@ def check_batch(ctx: Context, rep, rule: str) -> None:
     loops = [n for n in conc.body_nodes() if isinstance(n, ast.While)]
     ok = False
     detail = "<batch loop not found>"
-    if len(loops) == 1 and isinstance(loops[0].test, ast.Name):
-        b = loops[0].test.id
-        lp = loops[0]
+    FILL = "list(itertools.islice(shard_paths_iterator,file_parallelism))"
+
+    def is_fill(e: ast.AST | None) -> bool:
+        return e is not None and ast.unparse(e).replace(" ", "") == FILL
+
+    for lp in loops:
+        b = None
+        fills_ok = False
+        if isinstance(lp.test, ast.Name):
+            # b = fill(); while b: ...; b = fill()
+            b = lp.test.id
+            refills = [n for n in ast.walk(lp) if isinstance(n, ast.Assign) and
+                       dotted(n.targets[0]) == b]
+            firsts = [n for n in conc.body_nodes() if isinstance(n, ast.Assign)
+                      and dotted(n.targets[0]) == b and n not in refills]
+            fills_ok = len(refills) == 1 and len(firsts) == 1 and is_fill(
+                refills[0].value) and is_fill(firsts[0].value) and \
+                lp.body[-1] is refills[0]
+        elif isinstance(lp.test, ast.NamedExpr) and isinstance(
+                lp.test.target, ast.Name):
+            # while b := fill(): ...
+            b = lp.test.target.id
+            others = [n for n in ast.walk(lp) if isinstance(n, ast.Assign) and
+                      dotted(n.targets[0]) == b]
+            fills_ok = is_fill(lp.test.value) and not others
+        if b is None:
+            continue
         maps = [c for c in ast.walk(lp) if isinstance(c, ast.Call) and
                 isinstance(c.func, ast.Attribute) and c.func.attr == "map" and
                 "executor" in ast.unparse(c.func.value)]
         whole = len(maps) == 1 and len(maps[0].args) == 2 and dotted(
             maps[0].args[1]) == b and "process_and_list" in ast.unparse(
                 maps[0].args[0])
-        refills = [n for n in ast.walk(lp) if isinstance(n, ast.Assign) and
-                   dotted(n.targets[0]) == b]
-        firsts = [n for n in conc.body_nodes() if isinstance(n, ast.Assign) and
-                  dotted(n.targets[0]) == b and n not in refills]
-        same = len(refills) == 1 and len(firsts) == 1 and ast.unparse(
-            refills[0].value) == ast.unparse(firsts[0].value) and \
-            ast.unparse(refills[0].value).replace(" ", "") == \
-            "list(itertools.islice(shard_paths_iterator,file_parallelism))"
-        last = lp.body[-1] is refills[0] if refills else False
-        ok = whole and same and last and not any(isinstance(
+        ok = whole and fills_ok and not any(isinstance(
             x, (ast.Break, ast.Continue)) for x in ast.walk(lp))
-        detail = (f"maps whole batch={whole}, refill == first fill from the "
-                  f"same iterator={same}, refill is the last statement={last}")
+        detail = (f"maps whole batch={whole}, every batch is the next "
+                  f"file_parallelism paths of the one iterator={fills_ok}")
     rep.ob(rule, ok, loc=conc.loc(loops[0]) if loops else conc.loc(),
            where=conc.qualname,
-           construct="batch = list(islice(it, P)); while batch: yield from "
-           "map(batch); batch = list(islice(it, P))", message=detail)
+           construct="while batch := list(islice(it, P)): yield from "
+           "map(f, batch)   (or the explicit first-fill / refill form)",
+           message=detail)
     com = ctx.fn(C.COMMON)
     for rpt in (True, False):
         for shf in (TRUTHY, 0):
